@@ -16,7 +16,7 @@ NAME_SCHEMES = {
     'f': lambda i: ['q9', 'q10', 'trap9', 'trap10', 'q1', 'trap1'][i],    # numbered names around a decimal carry (fresh-name generators)          # digit names: a name + a digit letter is another name   # names that are substrings of each other
     'k': lambda i: ['accept', 'reject', 'blank', 'tape_symbols', 'stack_symbols'][i],   # keywords of OTHER formats: legal NFA/PDA state names
     'z': lambda i: ['r', 'a', 'b', 'f', 'c', 'd'][i],   # single letters (C15 back-pointer order)
-    'u': lambda i: ['q₀', 'q₁', 'p¹', '①', 'qγ', 'Ω'][i],   # word-character names with non-decimal digit characters / outside latin-1
+    'u': lambda i: ['q₀', 'q₁', 'p¹', '①', 'qγ', 'Ω', 'q₂', 'p²', '②', 'q₁₀', 'Ωγ', 'q₃'][i],   # word-character names with non-decimal digit characters / outside latin-1
     'g': lambda i: ['start', 'start2', 'accept', 'accept2', 'start1', 'accept1'][i],   # names the library itself generates as fresh (prefix + count)
     'K': lambda i: ['Final', 'Initial', 'States', 'Epsilon', 'Blank', 'Accept'][i],    # keywords in another letter case
 }
